@@ -108,16 +108,26 @@ func main() {
 												continue // ReadMessage/ReadData take a plain side state; extended is set through Reader only
 											}
 											for _, ch := range []int{0, 1} {
-												d, ch, ext := d, ch, ext
-												t.Do(func() string {
-													return fmt.Sprintf("%s ext=%v prefix=[%s] offender={%v} driver=%s chunk=%d", p.side, ext, streams.Describe(p.frames), h, d.Name, ch)
-												}, func() *explore.Fail {
-													src := env.NewSrc(data)
-													src.Policy = env.FixedChunk(ch)
-													var res drivers.Result
-													d.Run(src, p.side, drivers.Cfg{Extended: ext}, &res)
-													return judge(t, d, &res, src, must, upper, broken, hdrEnd)
-												})
+												// end: the stream goes on behind the offender (payload, canary message); or it
+												// ends right behind the offender's header, the end reported by a Read of its
+												// own or together with the header's last byte - the header is complete either
+												// way, so asking for frame k still has to yield the protocol error
+												for _, end := range []string{"continues", "ends-after-header", "ends-with-header"} {
+													d, ch, ext, end := d, ch, ext, end
+													t.Do(func() string {
+														return fmt.Sprintf("%s ext=%v prefix=[%s] offender={%v} driver=%s chunk=%d stream %s", p.side, ext, streams.Describe(p.frames), h, d.Name, ch, end)
+													}, func() *explore.Fail {
+														src := env.NewSrc(data)
+														if end != "continues" {
+															src.Cut = hdrEnd
+															src.WithLast = end == "ends-with-header"
+														}
+														src.Policy = env.FixedChunk(ch)
+														var res drivers.Result
+														d.Run(src, p.side, drivers.Cfg{Extended: ext}, &res)
+														return judge(t, d, &res, src, must, upper, broken, hdrEnd)
+													})
+												}
 											}
 										}
 									}
@@ -315,7 +325,8 @@ func main() {
 				for _, inMsg := range []bool{false, true} {
 					for _, limit := range []int64{1, 2, 125, 126, 65535} {
 						for _, ann := range []int64{limit - 1, limit, limit + 1, 1 << 31, 1<<63 - 1} {
-							for _, ch := range []int{0, 1} {
+							for _, ch := range []int{0, 1, -1, -2} {
+								// ch<0: nothing follows the header; -2: the end comes with the header's last byte
 								side, inMsg, limit, ann, ch := side, inMsg, limit, ann, ch
 								t.Do(func() string {
 									return fmt.Sprintf("%s inMessage=%v MaxFrameSize=%d announced=%d chunk=%d", side, inMsg, limit, ann, ch)
@@ -333,7 +344,11 @@ func main() {
 									data := append(append(append([]byte{}, pre...), hb...), 0xEE, 0xEE, 0xEE)
 									hdrEnd := len(pre) + len(hb)
 									src := env.NewSrc(data)
-									src.Policy = env.FixedChunk(ch)
+									if ch < 0 {
+										src.Cut, src.WithLast = hdrEnd, ch == -2
+									} else {
+										src.Policy = env.FixedChunk(ch)
+									}
 									rd := &wsutil.Reader{Source: src, State: drivers.State(side), MaxFrameSize: limit}
 									if inMsg {
 										if _, err := rd.NextFrame(); err != nil {
